@@ -152,3 +152,44 @@ def run(ck):
             if not (worst <= tol2):
                 ck.violation(f'with the Gram matrix of the documented closed form the residual is {worst:.3g} > {tol2:.3g} on {desc}',
                              dict(desc, residual=worst, tol=tol2), key=json.dumps(dict(site='closed-form-residual', kernel=kern)))
+
+    # ---- leaves INSIDE a forest: every leaf model of a fitted xRFM (split trees, 1-2 trees, adaptive and constant bandwidth) must satisfy the ridge identity
+    #      with ITS OWN stored centers / feature matrix / bandwidth (leaf models are separate objects; nothing one leaf does may change another leaf's state)
+    from harness import oracle as orc2
+    for i in range(ck.n(6, 24)):
+        kern, extra = [('l2', {}), ('l2_high_dim', {}), ('lpq', dict(norm_p=1.5)), ('l1', {})][i % 4]
+        bwm = 'adaptive' if i % 3 != 2 else 'constant'
+        n = int(rr.integers(90, 160)); d = 3; nout = 1 + i % 2
+        Xf = xr.make_X('random', n, d, rr); Yf = rr.standard_normal((n, nout)).astype(np.float32)
+        Xvf = xr.make_X('random', 40, d, rr); Yvf = rr.standard_normal((40, nout)).astype(np.float32)
+        lam = [1e-2, 1e-1][i % 2]
+        xr.seed_all(2300 + i + ck.seed)
+        fm = xr.xRFM(rfm_params=xr.default_rfm_params(kernel=kern, iters=[0, 1, 2][i % 3], reg=lam, bandwidth=2.0, bandwidth_mode=bwm, exponent=[1.0, 1.2][i % 2], diag=bool(i % 2), **extra),
+                     max_leaf_size=int(rr.integers(25, 45)), n_trees=[1, 2][(i // 2) % 2], verbose=False, use_temperature_tuning=False, refill_size=20)
+        desc = dict(kind='forest', i=i, kernel=kern, bw=bwm, n=n, nout=nout, lam=lam, trees=fm.n_trees, seed=ck.seed)
+        try:
+            with xr.quiet():
+                fm.fit(torch.tensor(Xf), torch.tensor(Yf), torch.tensor(Xvf), torch.tensor(Yvf))
+        except Exception as e:
+            ck.violation(f'forest fit raised {e!r} on {desc}', dict(desc, error=repr(e)), key=json.dumps(dict(site='fit-raise', kernel=kern, solver='forest'))); continue
+        leaves = [l for t in fm.trees for l in orc2.tree_leaves(t)]
+        ck.case(dict(desc, leaves=len(leaves)), nontrivial=len(leaves) >= 2); ck.count(f'forest leaves checked ({bwm})', len(leaves))
+        for li, lf in enumerate(leaves):
+            m = lf['model']
+            with xr.quiet():
+                K = m.kernel(m.centers, m.centers).double()
+            nl = K.shape[0]
+            A = K + lam * torch.eye(nl, dtype=torch.float64)
+            W = m.weights.double()
+            Yl = torch.tensor(Yf)[lf['train_indices'].long()].double()
+            u = 2.0 ** -23
+            scale = float(A.abs().sum(1).max() * W.abs().max() + Yl.abs().max())
+            tol = 200 * nl * u * scale
+            r1 = float((A @ W - Yl).abs().max())
+            if not (r1 <= tol):
+                ck.violation(f'leaf {li} of a fitted forest ({len(leaves)} leaves): stored coefficients do not solve (K+lambda I) alpha = Y for ITS stored state '
+                             f'(bandwidth {float(m.kernel_obj.bandwidth):.4g}): residual {r1:.3g} > tol {tol:.3g} on {desc}', dict(desc, leaf=li, residual=r1, tol=tol,
+                             bandwidths=[float(l2['model'].kernel_obj.bandwidth) for l2 in leaves]), key=json.dumps(dict(site='forest-residual', bw=bwm)))
+                break
+        if len({id(l['model'].kernel_obj) for l in leaves}) != len(leaves):
+            ck.notes.append(f'forest leaves share kernel objects on {desc}')
